@@ -99,14 +99,20 @@ class Padder(ast.NodeTransformer):
 
 
 def transform(src, kind):
-    tree = ast.parse(src)
+    import warnings
+    with warnings.catch_warnings():
+        warnings.simplefilter("ignore")
+        tree = ast.parse(src)
     if kind == "rename":
         tree = Renamer().visit(tree)
     elif kind == "pad":
         tree = Padder().visit(tree)
     ast.fix_missing_locations(tree)
     out = ast.unparse(tree)
-    compile(out, "<transformed>", "exec", dont_inherit=True)
+    import warnings
+    with warnings.catch_warnings():
+        warnings.simplefilter("ignore")
+        compile(out, "<transformed>", "exec", dont_inherit=True)
     return out
 
 
